@@ -2,13 +2,18 @@
   C20 — frames racing a local stream reset never break the connection.
 
   Decided over the transition table regenerated from stream.py, plus the
-  `_receive_frame` wrapper of the hand model.
+  `_receive_frame` wrapper of the hand model, plus (`C20_forgotten_headers`) the path a HEADERS frame takes when
+  the reset stream has already been cleaned out of the stream table.
 -/
 import H2.Proofs.Shapes
 import H2.Proofs.Send
 
 namespace H2.C20
 open H2 H2.Gen H2.Conn
+
+theorem wp_eq_ok {σ α : Type} {Q : α → σ → Prop} {E : Exc → σ → Prop} (m : M σ α) (s s' : σ) (a : α)
+    (h : m s = (.ok a, s')) : wp m Q E s = Q a s' := by
+  unfold wp; rw [h]
 
 /-- the inputs a peer's in-flight frames on that stream turn into -/
 def racing : List StreamInputs :=
@@ -58,6 +63,139 @@ theorem C20_wrapper (c1 : Conn) (sid : Int)
   rw [wp_prepare_eq [Frame.rstStream sid (streamClosedErrorCode : Int)] _ [b] (by simp) (by simp [hb])
     (by simp only [List.all_cons, List.all_nil, Bool.and_true, hlen, decide_eq_true_eq]; omega)]
   cases c1; simp
+
+/-- the same wrapper for StreamIDTooLowError (what a frame for a stream that is no longer in the table raises): for a
+    stream that was closed by reset, exactly one RST_STREAM(STREAM_CLOSED), no events, nothing raised -/
+theorem C20_wrapper_too_low (c1 : Conn) (sid : Int)
+    (hr : closedByReset c1 sid = true) (hopen : c1.cstate = .CLIENT_OPEN ∨ c1.cstate = .SERVER_OPEN)
+    (hmax : 4 ≤ c1.maxOutFrame) :
+    ∃ b, (Frame.rstStream sid (ErrorCodes.STREAM_CLOSED : Int)).serialize? = some b ∧
+    wp (frameErrorHandler (.h2 .StreamIDTooLowError (ExcClass.StreamIDTooLowError.classCode.map Int.ofNat) (some sid) []))
+      (fun evs c2 => evs = [] ∧ c2 = { c1 with out := c1.out ++ b, sent := c1.sent ++ [Frame.rstStream sid (ErrorCodes.STREAM_CLOSED : Int)] })
+      (fun _ _ => False) c1 := by
+  obtain ⟨b, hb, hlen⟩ := rst_serialize sid (ErrorCodes.STREAM_CLOSED : Int) (by decide)
+  refine ⟨b, hb, ?_⟩
+  have htab : connTable c1.cstate .SEND_RST_STREAM = some c1.cstate := by
+    rcases hopen with h | h <;> simp [h, connTable]
+  simp only [frameErrorHandler]
+  have hsub : ExcClass.isSub .StreamIDTooLowError .StreamClosedError = false := by decide
+  simp only [hsub, Bool.false_eq_true, if_false, Option.getD]
+  wps
+  simp only [hr, if_true]
+  rw [wp_connInput_ok _ _ _ htab]
+  wps
+  rw [wp_prepare_eq [Frame.rstStream sid (ErrorCodes.STREAM_CLOSED : Int)] _ [b] (by simp) (by simp [hb])
+    (by simp only [List.all_cons, List.all_nil, Bool.and_true, hlen, decide_eq_true_eq]; omega)]
+  cases c1; simp
+
+/-- the part of `_receive_headers_frame` after the header block has been decoded, for an id that is not in the stream
+    table and at or below the high-water mark of its side: StreamIDTooLowError, nothing changed -/
+theorem headersRest_too_low (c1 : Conn) (sid : Int) (hs : List Header) (es : Bool) (prio : Option Prio)
+    (hno : hasStream c1 sid = false)
+    (hold : sid ≤ (if streamIdIsOutbound c1 sid then c1.highestOut else c1.highestIn))
+    (hopen : c1.cstate = .CLIENT_OPEN ∨ c1.cstate = .SERVER_OPEN) :
+    wp (do
+        connInput .RECV_HEADERS
+        let c ← getS
+        if c.cfg.client && !hasStream c sid && !streamIdIsOutbound c sid && sid > c.highestIn then raise pErr else
+        getOrCreateStream sid (!c.cfg.client)
+        let (frames, streamEvents) ← withStream sid (Stream.receiveHeaders c.cfg hs es)
+        match prio with
+        | some p =>
+          let (_, pEvents) ← receivePriorityFrame sid p
+          pure (frames, setPriorityUpdated streamEvents ++ pEvents)
+        | none => pure (frames, streamEvents)) (fun _ _ => False)
+      (fun e c' => e = .h2 .StreamIDTooLowError (ExcClass.StreamIDTooLowError.classCode.map Int.ofNat) (some sid) [] ∧
+        c' = c1) c1 := by
+  have hrecv : connTable c1.cstate .RECV_HEADERS = some c1.cstate := by
+    rcases hopen with h | h <;> simp [h, connTable]
+  have hnotnew : ∀ b : Bool, (b && !hasStream c1 sid && !streamIdIsOutbound c1 sid && decide (sid > c1.highestIn)) = false := by
+    intro b0
+    cases ho : streamIdIsOutbound c1 sid with
+    | true => simp
+    | false =>
+      rw [ho] at hold
+      simp only [Bool.false_eq_true, if_false] at hold
+      have : ¬ (sid > c1.highestIn) := by omega
+      simp [this]
+  wps
+  rw [wp_connInput_ok _ _ c1.cstate hrecv]
+  wps
+  have e1 : ({ c1 with cstate := c1.cstate } : Conn) = c1 := by cases c1; rfl
+  rw [e1]
+  rw [hnotnew c1.cfg.client]
+  simp only [Bool.false_eq_true, if_false]
+  unfold getOrCreateStream
+  wps
+  rw [hno]
+  simp only [Bool.false_eq_true, if_false]
+  unfold beginNewStream
+  wps
+  have hlow : sid ≤ (if streamIdIsOutbound c1 sid = true then c1.highestOut else c1.highestIn) := hold
+  rw [if_pos hlow]
+  try wps
+  constructor <;> first | rfl | trivial
+
+/-- **after the closed stream's state is cleaned up**: a HEADERS frame (a response, trailers, a request's trailers)
+    for a stream this endpoint has reset and already removed from its table — the id is at or below the high-water
+    mark of its side, the closed-stream memory says SEND_RST_STREAM — is answered with exactly one
+    RST_STREAM(STREAM_CLOSED); no event, no exception, however many streams are open and whatever
+    MAX_CONCURRENT_STREAMS is (before the repair D48 the limit check came first and raised TooManyStreamsError).
+    The header block is still decoded (the compression context stays in step); the premise is that it decodes. -/
+theorem C20_forgotten_headers (c : Conn) (sid : Int) (block : Bytes) (es : Bool) (pad : Option Int) (prio : Option Prio)
+    (eh : Bool) (fcl : Nat)
+    (hno : hasStream c sid = false)
+    (hold : sid ≤ (if streamIdIsOutbound c sid then c.highestOut else c.highestIn))
+    (hr : closedByReset c sid = true) (hopen : c.cstate = .CLIENT_OPEN ∨ c.cstate = .SERVER_OPEN)
+    (hmax : 4 ≤ c.maxOutFrame)
+    (hs : List Header) (hp' : Hp) (hdec : Hp.decode block c.hp = (.ok (.ok hs), hp')) :
+    ∃ b, (Frame.rstStream sid (ErrorCodes.STREAM_CLOSED : Int)).serialize? = some b ∧
+    wp (receiveFrame { frame := .headers sid block es eh pad prio, fcl := fcl })
+      (fun evs c2 => evs = [] ∧
+        c2 = { c with hp := hp', out := c.out ++ b, sent := c.sent ++ [Frame.rstStream sid (ErrorCodes.STREAM_CLOSED : Int)] })
+      (fun _ _ => False) c := by
+  obtain ⟨b, hb, hw⟩ := C20_wrapper_too_low { c with hp := hp' } sid hr hopen hmax
+  refine ⟨b, hb, ?_⟩
+  have hnotnew : (!hasStream c sid && !streamIdIsOutbound c sid && decide (sid > c.highestIn)) = false := by
+    cases ho : streamIdIsOutbound c sid with
+    | true => simp
+    | false =>
+      rw [ho] at hold
+      simp only [Bool.false_eq_true, if_false] at hold
+      have : ¬ (sid > c.highestIn) := by omega
+      simp [this]
+  have hrest := headersRest_too_low { c with hp := hp' } sid hs es prio hno hold hopen
+  have hB : wp (receiveHeadersFrame sid block es prio) (fun _ _ => False)
+      (fun e c' => e = .h2 .StreamIDTooLowError (ExcClass.StreamIDTooLowError.classCode.map Int.ofNat) (some sid) [] ∧
+        c' = { c with hp := hp' }) c := by
+    unfold receiveHeadersFrame
+    wps
+    simp only [hnotnew, Bool.false_eq_true, if_false]
+    try wps
+    unfold receiveHeadersRest decodeHeaders
+    wps
+    rw [wp_eq_ok _ _ _ _ hdec]
+    simp only
+    wps
+    simp only [wp_bind, wp_pure, wp_Mpure, wp_raise, wp_getS, wp_modifyS, wp_ite, wp_liftExcept, wp_tryCatch, wp_zoom] at hrest
+    exact hrest
+  unfold receiveFrame
+  wps
+  simp only [dispatch]
+  apply wp_mono hB
+  · intro _ _ hf; exact hf.elim
+  · intro e c' ⟨he, hc'⟩
+    subst he; subst hc'
+    have hinst : (Exc.h2 ExcClass.StreamIDTooLowError (Option.map Int.ofNat ExcClass.StreamIDTooLowError.classCode) (some sid) []).isInstance .StreamClosedError = false := rfl
+    have hinst2 : (Exc.h2 ExcClass.StreamIDTooLowError (Option.map Int.ofNat ExcClass.StreamIDTooLowError.classCode) (some sid) []).isInstance .StreamIDTooLowError = true := rfl
+    simp only [hinst, hinst2, Bool.false_or, if_true]
+    try wps
+    apply wp_mono hw
+    · intro evs c2 ⟨h1, h2⟩
+      subst h1; subst h2
+      wps
+      exact ⟨trivial, trivial⟩
+    · intro _ _ hf; exact hf.elim
 
 /-- non-vacuity: an open request stream that is reset has the shape the theorem talks about, and DATA racing the
     reset gets the quiet "closed" signal -/
